@@ -286,6 +286,11 @@ class _OldRewriter(ast.NodeTransformer):
         self.olds = []
 
     def visit_Call(self, node):
+        if isinstance(node.func, ast.Name) and node.func.id == "implies" and len(node.args) == 2:
+            # lazy, like the symbolic reading: the consequent is only evaluated when the antecedent holds
+            a = self.visit(node.args[0])
+            b = self.visit(node.args[1])
+            return ast.copy_location(ast.BoolOp(op=ast.Or(), values=[ast.UnaryOp(op=ast.Not(), operand=a), b]), node)
         if isinstance(node.func, ast.Name) and node.func.id == "old" and len(node.args) == 1:
             name = "__old_%d" % len(self.olds)
             self.olds.append((name, node.args[0]))
@@ -381,7 +386,7 @@ class NativeContract:
         env2["result"] = result
         for e, code, vals in comp:
             loc = dict(env2)
-            loc.update(vals)
+            loc.update({k: (_Raiser(v) if isinstance(v, Exception) else v) for k, v in vals.items()})
             try:
                 okv = eval(code, self.ns, loc)
             except Exception as ex:
@@ -390,6 +395,18 @@ class NativeContract:
             if not okv:
                 failed.append(e)
         return failed
+
+
+class _Raiser(object):
+    """an old(...) expression that could not be evaluated in the pre-state: using it is an error, not using it is fine"""
+
+    def __init__(self, exc):
+        self._exc = exc
+
+    def _boom(self, *a, **k):
+        raise self._exc
+    __add__ = __radd__ = __eq__ = __ne__ = __getitem__ = __len__ = __iter__ = __bool__ = __contains__ = __lt__ = __le__ = __gt__ = __ge__ = _boom
+    __hash__ = None
 
 
 def _exc_matches(e, name):
